@@ -230,6 +230,22 @@ def run(ctx):
     ctx.rule("R04.9", "state trigger arguments: names of the form DOMAIN.name[.attr|.*] are any-change triggers, everything else is an expression (several are or-ed with any([...])) - same in both subsystems", floor=10)
     state_args_table(ctx, program, "R04.9")
 
+    ctx.rule("R04.10", "legacy loop: whether a notification is a change of a watched name is decided on the notification's own var_name / value / old_value - "
+             "keys of the decorator's kwargs= (which may be named var_name, value, ...) are merged only into what the function receives", floor=2)
+    from ..legacy import WATCH as _W, watch_occurrence as _wo
+    for fv in (None, True):
+        uk = DictV([(Const("var_name"), Const("light")), (Const("value"), Const("two")), (Const("extra"), Const(1))])
+        recs, occ, _ = _wo(program, "state", filter_value=fv, user_kwargs=uk)
+        bad = None if recs else "no exit"
+        for r in recs:
+            ins = [x[0] for x in r["change_inputs"] if x]
+            if not ins:
+                bad = "the change predicates were never consulted"
+            elif any(i != occ for i in ins):
+                bad = f"the change predicates are given {[repr(i) for i in ins if i != occ][:1]} instead of the notification's arguments {occ!r}"
+        ctx.check(bad is None, "R04.10", _W, f"change predicates see the notification's own arguments ({'any-change trigger' if fv is None else 'expression trigger'})",
+                  msg=f"legacy trigger_watch with @state_trigger(..., kwargs={{'var_name': 'light', 'value': 'two', 'extra': 1}}): {bad}: the trigger never runs (or runs for attribute-only updates)",
+                  key=f"change predicate inputs {fv}", node=program.func(_W), rel="trigger.py")
     ctx.rule("R04.4", "names referenced by a trigger expression: the analysis descends into every construct (only names and dotted names end the descent)", floor=1)
     f = program.func("eval.py::AstEval.get_names_set")
     early = []
